@@ -1114,7 +1114,7 @@ func (p *pp) doPrintf(format string, a []interface{}) {
 		p.buf.SetMode(b.SafeEscaped)
 	}
 	if verifOn {
-		verifMode(p, "D", -1, -1)
+		verifMode(p, "D")
 	}
 	end := len(format)
 	argNum := 0         // we process one argument per non-trivial format
@@ -1297,7 +1297,7 @@ func (p *pp) doPrint(a []interface{}) {
 		p.buf.SetMode(b.SafeEscaped)
 	}
 	if verifOn {
-		verifMode(p, "D", -1, -1)
+		verifMode(p, "D")
 	}
 	prevString := false
 	for argNum, arg := range a {
@@ -1320,7 +1320,7 @@ func (p *pp) doPrintln(a []interface{}) {
 		p.buf.SetMode(b.SafeEscaped)
 	}
 	if verifOn {
-		verifMode(p, "D", -1, -1)
+		verifMode(p, "D")
 	}
 	for argNum, arg := range a {
 		if argNum > 0 {
